@@ -163,3 +163,26 @@ def fz(x):
   if isinstance(x, dict):
     return tuple(sorted((k, fz(v)) for k, v in x.items()))
   return x
+
+
+def restore_registry(config, before, inv_before):
+  """Puts gin's registry back to what it was (`before`: dict selector -> Configurable, `inv_before`: inverse registry).
+  Isolation between cases must not depend on the SelectorMap under test: if removing the entries one by one fails, both
+  maps are rebuilt from scratch."""
+  try:
+    for sel in [k for k, _ in list(config._REGISTRY.items()) if k not in before]:
+      config._REGISTRY.pop(sel)
+    ok = set(k for k, _ in config._REGISTRY.items()) == set(before)
+  except Exception:  # pylint: disable=broad-except
+    ok = False
+  if not ok:
+    from gin import selector_map
+    reg = selector_map.SelectorMap()
+    for k, v in before.items():
+      reg[k] = v
+    config._REGISTRY = reg
+  for k in [k for k in list(config._INVERSE_REGISTRY) if k not in inv_before]:
+    try:
+      del config._INVERSE_REGISTRY[k]
+    except Exception:  # pylint: disable=broad-except
+      pass
